@@ -101,7 +101,8 @@ class FileProxy:
 
     def __iter__(self):
         self._log.boundary("read", self._label)
-        return iter(self._f)
+        self._nexts = 0
+        return self if self._log.active else iter(self._f)
 
     def _wrap(name, after=False):
         def m(self, *a, **k):
@@ -121,6 +122,11 @@ class FileProxy:
     readline = _wrap("readline")
 
     def __next__(self):
+        # the file object fills its buffer on the first next() after a seek (and again every few KiB): those are the real read calls
+        n = getattr(self, "_nexts", 0)
+        self._nexts = n + 1
+        if n % 64 == 0:
+            self._log.boundary("readchunk", self._label)
         return next(self._f)
 
     def __enter__(self):
@@ -727,7 +733,7 @@ def c13(tier, seed, F):
         for h in range(40 if tier == "quick" else 400):
             base = os.path.join(d, "c13_%d" % h)
             seedh = rnd.randint(0, 10**9)
-            op = rnd.choice(WRITES)
+            op = rnd.choice(WRITES + C13_READS)
             # dry run to learn the number of I/O calls of the operation
             ncalls = run_c13(base + "_dry.csv", seedh, op, None, F)
             if ncalls is None:
@@ -747,9 +753,7 @@ def run_c13(path, seedh, op, fail_at, F):
     install(log)
     try:
         db = TinyFlux(path, auto_index=rnd.random() < 0.5)
-        model = []
-        for _ in range(rnd.randint(1, 4)):
-            model = apply_op(db, model, "ins", rnd)
+        model = c13_prelude(db, rnd)
         old = list(model)
         log.calls, log.active, log.fail_at = [], True, fail_at
         err = None
@@ -796,7 +800,7 @@ def run_c13(path, seedh, op, fail_at, F):
                 F.note("after an I/O error at %s the reopened file (%d rows) differs from what the live object reported (%d rows)" % (where, len(re), len(live2)), dict(kind="c13", seed=seedh, op=op, fail_at=list(fail_at)))
         except Exception:
             pass  # failing with an error is allowed
-        if got is not None and new is None:
+        if got is not None and new is None and op not in C13_READS:
             # file must decode to old or to the contents the operation would have produced
             full = expected_new(old, op, seedh)
             if got != old and got != full and not (op in ("ins", "insm") and got[: len(old)] == old and got == full[: len(got)]):
@@ -811,10 +815,21 @@ def expected_new(old, op, seedh):
     from tinyflux.storages import MemoryStorage
     rnd = random.Random(seedh)
     db = TinyFlux(storage=MemoryStorage, auto_index=rnd.random() < 0.5)
+    model = c13_prelude(db, rnd)
+    return apply_op(db, model, op, rnd)
+
+
+C13_READS = ["search", "get", "contains", "len"]
+
+
+def c13_prelude(db, rnd):
+    """a few inserts; sometimes the last one is out of time order, so that the operation under test starts with an invalid index (and has to read storage to rebuild it)"""
     model = []
     for _ in range(rnd.randint(1, 4)):
         model = apply_op(db, model, "ins", rnd)
-    return apply_op(db, model, op, rnd)
+    if rnd.random() < 0.4:
+        model = apply_op(db, model, "ooo", rnd)
+    return model
 
 
 RUN = dict(C04=c04, C05=c05, C08=c08, C12=c12, C13=c13, C15=c15, C16=c16)
